@@ -90,3 +90,57 @@ Print Assumptions C08_response_untracked_dropped.
 Print Assumptions C08_response_tracked_written_once.
 Print Assumptions C08_reuse_after_cancel_refuted.
 Print Assumptions C08_monitor.
+
+(* ------------------------------------------------------------------------------------------ *)
+(* End-to-end response integrity over the composition of the client and server models
+   (coq/ChainResp*.v; monitor ChainRespSpec.c01c_ok, evaluated on every real chain trace by part
+   compose); names are qualified. *)
+From TarpcV Require Client Server Chain ChainSpec ChainRespSpec ChainResp ChainResp2 ChainResp3.
+(* C08 across the hop, on the COMPOSITION (coq/Chain.v), for EVERY depth and EVERY op list.
+   (a) every state, no hypothesis: a request yielded to the application on node i (KYield i k id
+       .. body) was written into link i before with this request id and this body (KWire i
+       [.. WReq id .. body ..]), and its incarnation number k is the number of requests yielded
+       on node i before it: the server never yields a request the client did not write. *)
+Theorem C08_chain_yield_written : forall (d : nat) (ops : list Chain.cop),
+  ChainRespSpec.c01c_yield d ops (fst (Chain.run d ops)) = true.
+Proof. exact ChainResp2.chain_resp_yield. Qed.
+
+(* (b) every state, no hypothesis: a handler is started (KHStart i k) only for a request that was
+       yielded as incarnation k of node i, and at most once: a handler record never returns to
+       the state HYielded. *)
+Theorem C08_chain_start_once : forall (d : nat) (ops : list Chain.cop),
+  ChainRespSpec.c01c_start d ops (fst (Chain.run d ops)) = true.
+Proof. exact ChainResp2.chain_resp_start. Qed.
+
+(* (c) fewer than 2^64 - 1 ops, owed while the run is untainted (Chain.mo_tainted: no end of a link
+       dropped, no dispatch / stream ended, no oracle trouble, no head deadline beyond MAX_TIMEOUT):
+       a request id is yielded at most once per link.  This is where the cascade invariant is
+       used: ChainInv.cross keeps the ids in the link and the ids of all handler incarnations of
+       the node pairwise distinct.  With (a) and (b): between the write of a request and its
+       response, exactly one handler is started for it on the next node. *)
+Theorem C08_chain_yield_once : forall (d : nat) (ops : list Chain.cop),
+  ChainSpec.chain_no_wrap ops -> ChainRespSpec.c01c_uniq d ops (fst (Chain.run d ops)) = true.
+Proof. exact ChainResp3.chain_resp_uniq. Qed.
+
+(* non-vacuity: depth 2, one head call; the real run yields request 0 once on each node and starts
+   each handler once.  The monitor rejects: a yield of a request id never written on that link,
+   a second yield of the same id on a link, a second start of a handler, a start without yield. *)
+Example C08_chain_nonvacuous :
+  let ops := [Chain.HCall 1000 7 true 5; Chain.SettleAll] in
+  let tr := fst (Chain.run 2 ops) in
+  filter (fun e => match e with Chain.KYield _ _ _ _ _ _ | Chain.KHStart _ _ => true | _ => false end)
+         (nth 1 tr []) =
+    [Chain.KYield 0 0 0 1000 15 5; Chain.KHStart 0 0; Chain.KYield 1 0 0 1000 15 5; Chain.KHStart 1 0]
+  /\ ChainRespSpec.c01c_ok 2 ops tr = true
+  /\ ChainRespSpec.c01c_yield 2 ops [[]; [Chain.KWire 0 [Chain.WReq 0 1000 15 0 5];
+                                          Chain.KYield 0 0 1 1000 15 5]] = false
+  /\ ChainRespSpec.c01c_uniq 2 ops [[]; [Chain.KWire 0 [Chain.WReq 0 1000 15 0 5];
+                                         Chain.KYield 0 0 0 1000 15 5; Chain.KYield 0 1 0 1000 15 5]] = false
+  /\ ChainRespSpec.c01c_start 2 ops [[]; [Chain.KWire 0 [Chain.WReq 0 1000 15 0 5];
+                                          Chain.KYield 0 0 0 1000 15 5; Chain.KHStart 0 0; Chain.KHStart 0 0]] = false
+  /\ ChainRespSpec.c01c_start 2 ops [[]; [Chain.KHStart 0 0]] = false.
+Proof. vm_compute. repeat split; reflexivity. Qed.
+
+Print Assumptions C08_chain_yield_written.
+Print Assumptions C08_chain_start_once.
+Print Assumptions C08_chain_yield_once.
